@@ -79,6 +79,65 @@ CLAIMS = {
              "mirror of get_unique_connections equals the closed form by kernel computation for in_dim <= 24 (bounded).",
         technique="Rocq/Coq proof (Permutation/NoDup reasoning over a model parameterised by the draws) + exact differential correspondence",
     ),
+    "C07": dict(
+        category="proof",
+        text="Coq theorems over exact rationals (every float is one) on terms regenerated from the source: eval output = [form > 0] at the "
+             "corner; the id reported by get_gate_ids has exactly the eval truth table (all 16 prediction patterns by kernel computation, "
+             "lifted to all coefficient vectors); conv layers use the same rule; the compiler's _walsh_gate_ids computes the same "
+             "function and is wired into both extraction sites; the 16 built-in vectors are exact +-1 expansions of 16 distinct gates; "
+             "over R, logistic(x/tau) > 1/2 iff x > 0. Tied on all 81 sign/zero corner patterns at 5-10 magnitudes (exact dyadic "
+             "coefficients) through dense and conv layers, get_gate_ids and the compiled library.",
+        design_ref="DESIGN.md section 6 C07",
+        note="Coq kernel; Reals axioms + Classical_Prop.classic under C07_soft only; translator translate/ops.py gen_walsh; float "
+             "evaluation is exact only on the dyadic grid used (sum order of torch not modelled elsewhere).",
+        technique="Rocq/Coq proof over Q (finite case analysis lifted by the sign pattern) and R (exp monotonicity) + exact differential correspondence",
+    ),
+    "C12": dict(
+        category="proof",
+        text="Coq theorems on the N-D convolution model, generic in the value type and the per-node function (eval and training alike): "
+             "out[k][p] = kernel_tree k (window p of the zero-padded input) with one tree per kernel; equal windows give equal outputs "
+             "(translation equivariance); the index tensor is relative index + stride * position; the number of positions per axis is "
+             "floor((H+2p-rf)/s)+1 = len(arange) and every window fits the padded image; unravelled field positions are inside the field. "
+             "Tied by exact equality of layer.indices with sliding_indices evaluated in the kernel and by eval/training forward vs "
+             "per-window evaluation, output shapes and shifted images, 2-D and 3-D.",
+        design_ref="DESIGN.md section 6 C12",
+        note="Coq kernel (closed theorems); torch indexing/pad/meshgrid modelled; training outputs compared within 1e-5 of a float64 reference.",
+        technique="Rocq/Coq proof (list/nth reasoning on a generic convolution model) + exact index-tensor correspondence",
+    ),
+    "C14": dict(
+        category="proof",
+        text="Coq theorems on a decision model of _parse_model + _validate_structure whose dispatch table and checks are regenerated "
+             "from the source: if the constructor succeeds, no foreign/nested module occurs, every layer module is recorded in order, "
+             "the GroupSum is unique and last, spatial layers form a prefix starting with a convolution, Flatten sits exactly between "
+             "the spatial part and dense layers / GroupSum, shapes chain and the width divides by the classes (unbounded, by induction "
+             "over index lists); foreign modules are rejected; accepted dense stacks are compiled faithfully (C01). Partial: 'foreign "
+             "torch modules' is an open class represented by one kind. Tied by a 43-entry catalogue of containers built for real.",
+        design_ref="DESIGN.md section 6 C14",
+        note="Coq kernel (closed theorems); translator translate/parse.py; faithfulness of accepted conv/pool stacks per sampled model (and C02).",
+        technique="Rocq/Coq proof on a decision model regenerated by translator + catalogue correspondence (raise vs compile vs outputs)",
+    ),
+    "C19": dict(
+        category="proof",
+        text="Coq theorems: for each public constructor / call the guard model (mirroring the asserts and raises in source order) rejects "
+             "every configuration outside the domain listed by the property and accepts every one inside; every modelled guard is present "
+             "in the current source (translator); conv padding defaults are the number 0. Tied by running the real component on an "
+             "enumerated catalogue of invalid arguments crossed with valid random configurations and comparing raise-vs-return with the "
+             "model evaluated in the kernel.",
+        design_ref="DESIGN.md section 6 C19",
+        note="Coq kernel (closed theorems); translator translate/guards.py (text presence of guards); any exception counts as rejection.",
+        technique="Rocq/Coq proof on a decision model (case analysis, lia) + guard-presence translator + catalogue correspondence",
+    ),
+    "C20": dict(
+        category="proof",
+        text="Coq theorems for EVERY scale k >= 1, on layer lists regenerated by symbolic construction of each exported class: conv/pool "
+             "output sizes, channel counts, Flatten products, dense in_dim and group-sum divisibility chain from the documented input "
+             "shape to (batch, classes) (lia with div/mod equations); all 24 fixed-scale subclasses construct (argument plumbing through "
+             "signature-checking stubs) and chain. Tied by building the real classes at k in {1,2} x {raw, walsh}, comparing per-layer "
+             "shapes from forward hooks with the shape model in the kernel, finite outputs in train/eval, integer*(1/tau) in eval, baselines.",
+        design_ref="DESIGN.md section 6 C20",
+        note="Coq kernel (closed theorems); translator translate/models.py; large fixed-scale classes are not built for real.",
+        technique="Rocq/Coq proof (lia over affine dimensions from a symbolic-construction translator) + forward-hook correspondence",
+    ),
 }
 
 NOT_YET = "not yet built in this revision of /verif (work in progress; see DESIGN.md section 9 build order)"
